@@ -4,7 +4,7 @@
    known q h = bits [0,8q] and [57,63] of h = what a bucket keeps next to an element of class q. *)
 From Coq Require Import ZArith List.
 From MomoCommon Require Import GenPrelude.
-From C12 Require Gen_Base Gen_O2 Gen_O2MP Gen_P4 Gen_One Known P4_Model P4_Slot P4_Bucket O2_Slot Chain O2_Bucket MP_Open2N2 TableO2 TableO2_Proofs TableP4 TableP4_Proofs TableOne TableOne_Proofs Refuted TableO2_Find SameCode Gen_O2set TableP4_Find Gen_P4A P4A_Refine.
+From C12 Require Gen_Base Gen_O2 Gen_O2MP Gen_P4 Gen_One Known P4_Model P4_Slot P4_Bucket O2_Slot Chain O2_Bucket MP_Open2N2 TableO2 TableO2_Proofs TableP4 TableP4_Proofs TableOne TableOne_Proofs Refuted TableO2_Find SameCode Gen_O2set TableP4_Find Gen_P4A P4A_Refine Gen_P4A16 P4A_Refine16 Chains PtrState Gen_Ptr32 Gen_Ptr48 Gen_Ptr64.
 Import ListNotations.
 Local Open Scope Z_scope.
 
@@ -732,3 +732,115 @@ Theorem C12_limp4_generated_wasfull :
   forall s ptr stt, 0 <= stt < 4 -> Gen_P4A.WasFull s ptr stt = (stt + 1 =? 4).
 Proof. exact P4A_Refine.p4a_wasfull. Qed.
 Print Assumptions C12_limp4_generated_wasfull.
+
+(* ---------------------------------------------------------------------------------------------------------------
+   Grow round 3. *)
+
+(* chains of growths: after ANY chain of successive pvRelocateItems runs (strictly growing sizes up to 2^63; each run consumes
+   GetHashCodePart of the previous table and calls AddCrt in the next) the modelled HashSet::Find returns every key of the
+   ORIGINAL table, and the final table satisfies the invariant again. *)
+Theorem C12_open2n2_find_after_any_chain_of_growths :
+  forall hash, (forall k, 0 <= hash k < 2 ^ 64) ->
+  forall Ls L t, 0 <= L <= 63 -> Chains.increasing L Ls -> TableO2_Proofs.Tinv hash L t ->
+    match TableO2.grow_chain hash t L Ls with
+    | Ok (t', L') => TableO2_Proofs.Tinv hash L' t' /\
+        (forall k, TableO2_Proofs.Present L t k -> exists r, TableO2.find t' L' k (hash k) = Ok r /\ TableO2_Find.hit hash L' t' k r)
+    | Exn => True
+    | _ => False
+    end.
+Proof. exact Chains.grow_chain_find. Qed.
+Print Assumptions C12_open2n2_find_after_any_chain_of_growths.
+
+Theorem C12_limp4_find_after_any_chain_of_growths :
+  forall H mm hash, 4 <= H <= 8 -> 1 <= mm <= 4 -> (forall k, 0 <= hash k < 2 ^ 64) ->
+  forall Ls L t, 0 <= L <= 63 -> Chains.increasing L Ls -> TableP4_Proofs.PTinv H hash L t ->
+    match TableP4.pgrow_chain H mm hash t L Ls with
+    | Ok (t', L') => TableP4_Proofs.PTinv H hash L' t' /\
+        (forall k, TableP4_Proofs.PPresent L t k -> exists r, TableP4.pfind t' L' k (hash k) = Ok r /\ TableP4_Find.phit hash L' t' k r)
+    | Exn => True
+    | _ => False
+    end.
+Proof. exact Chains.pgrow_chain_find. Qed.
+Print Assumptions C12_limp4_find_after_any_chain_of_growths.
+
+Theorem C12_one_find_after_any_chain_of_growths :
+  forall hash, (forall k, 0 <= hash k < 2 ^ 64) ->
+  forall Ls L t, 0 <= L <= 63 -> Chains.increasing L Ls -> TableOne_Proofs.OTinv hash L t ->
+    match TableOne.ogrow_chain hash t L Ls with
+    | Ok (t', L') => TableOne_Proofs.OTinv hash L' t' /\
+        (forall k, TableOne_Proofs.OPresent L t k -> exists r, TableOne.ofind t' L' k (hash k) = Ok r /\ TableP4_Find.ohit hash t' k r)
+    | Exn => True
+    | _ => False
+    end.
+Proof. exact Chains.ogrow_chain_find. Qed.
+Print Assumptions C12_one_find_after_any_chain_of_growths.
+
+(* the generated BucketLimP4::Remove WITH the pointer state (count == 1 branch: pointer null, memory-pool index reset to
+   minMemPoolIndex unless it is maxCount) refines the Remove of the LimP4 theorems and TableP4.premove_at's bookkeeping *)
+Theorem C12_limp4_generated_remove_refines_model :
+  forall H mm s ptr stt iter idx, 0 <= stt < 4 -> 1 <= mm <= 4 ->
+    let c := Gen_P4.pvGetCount s in let mpi := stt + 1 in
+    match Gen_P4.Remove H mm s iter ptr mpi idx with
+    | Ok (_, s') =>
+        exists r stt', Gen_P4A.Remove H mm s ptr stt iter idx = Ok (r, s', (if c =? 1 then 0 else ptr), stt') /\
+          stt' + 1 = (if c =? 1 then (if mpi =? 4 then mpi else mm) else mpi) /\ 0 <= stt' < 4
+    | Stuck => Gen_P4A.Remove H mm s ptr stt iter idx = Stuck
+    | _ => False
+    end.
+Proof. exact P4A_Refine.p4a_remove_refines. Qed.
+Print Assumptions C12_limp4_generated_remove_refines_model.
+
+(* BucketLimP4::Clear (generated) frame *)
+Theorem C12_limp4_clear_frame :
+  forall H mm s ptr stt, 4 <= H -> 1 <= mm <= 4 ->
+    let '(s', ptr', stt') := Gen_P4A.Clear H mm s ptr stt in
+    (forall j, 0 <= j < H -> s' j = 255) /\ ptr' = 0 /\ stt' + 1 = mm /\ Gen_P4.pvGetCount s' = 0 /\
+    Gen_P4A.WasFull s' ptr' stt' = (mm =? 4).
+Proof. exact P4A_Refine.p4a_clear_frame. Qed.
+Print Assumptions C12_limp4_clear_frame.
+
+(* the AddCrt refinement for the instantiation with minMemPoolIndex = 1 (16-byte items / std::string keys), and same code for
+   everything except pvAdd0<minMemPoolIndex> *)
+Theorem C12_limp4_generated_addcrt_refines_model_min1 :
+  forall H mm s ptr stt x L probe m0a m0b m1a m1b m2a m2b m3a m3b m4a m4b,
+    0 <= stt < 4 -> mm = 1 ->
+    let c := Gen_P4.pvGetCount s in let mpi := stt + 1 in
+    0 <= c < 4 -> c <= mpi -> (ptr = 0 <-> c = 0) -> (c = 0 -> mpi = mm \/ mpi = 4) ->
+    exists r s' ptr' stt',
+      Gen_P4A16.AddCrt H mm s ptr stt x L probe m0a m0b m1a m1b m2a m2b m3a m3b m4a m4b = Ok (r, s', ptr', stt') /\
+      P4_Model.p4_add H s x L probe = Ok s' /\
+      stt' + 1 = (if c =? 0 then mpi else if c =? mpi then mpi + 1 else mpi) /\ 0 <= stt' < 4 /\
+      (ptr' = ptr \/ ptr' = m0a \/ ptr' = m1a \/ ptr' = m2a \/ ptr' = m3a \/ ptr' = m4a).
+Proof. exact P4A_Refine16.p4a_addcrt_refines16. Qed.
+Print Assumptions C12_limp4_generated_addcrt_refines_model_min1.
+
+Theorem C12_limp4_16byte_instantiation_same_code :
+  Gen_P4A16.pvGetCount = Gen_P4A.pvGetCount /\ Gen_P4A16.pvCalcShortHash = Gen_P4A.pvCalcShortHash /\
+  Gen_P4A16.pvGetProbeShift = Gen_P4A.pvGetProbeShift /\ Gen_P4A16.IsFull = Gen_P4A.IsFull /\
+  Gen_P4A16.pvGetMemPoolIndex = Gen_P4A.pvGetMemPoolIndex /\ Gen_P4A16.WasFull = Gen_P4A.WasFull /\
+  Gen_P4A16.pvSetPtrState = Gen_P4A.pvSetPtrState /\ Gen_P4A16.pvSetEmpty = Gen_P4A.pvSetEmpty /\ Gen_P4A16.Clear = Gen_P4A.Clear /\
+  Gen_P4A16.pvSetHashProbe = Gen_P4A.pvSetHashProbe /\ Gen_P4A16.pvAdd0_max = Gen_P4A.pvAdd0_max /\
+  Gen_P4A16.pvAdd_1 = Gen_P4A.pvAdd_1 /\ Gen_P4A16.pvAdd_2 = Gen_P4A.pvAdd_2 /\ Gen_P4A16.pvAdd_3 = Gen_P4A.pvAdd_3 /\
+  Gen_P4A16.Remove = Gen_P4A.Remove.
+Proof. exact P4A_Refine16.p4a16_same_code. Qed.
+Print Assumptions C12_limp4_16byte_instantiation_same_code.
+
+(* BucketLimP4PtrState, the three generated packings: pack / unpack round trip (this is what the two-scalar abstraction of the
+   pointer state in Gen_P4A rests on) *)
+Theorem C12_ptrstate32_roundtrip :
+  forall m ptr s, 0 <= ptr < 2 ^ 32 -> Z.land ptr 3 = 0 -> 0 <= s <= 3 ->
+    exists m', Gen_Ptr32.SetPtr m ptr s = Ok (tt, m') /\ Gen_Ptr32.GetPointer m' = ptr /\ Gen_Ptr32.GetState m' = s.
+Proof. exact PtrState.ptr32_roundtrip. Qed.
+Print Assumptions C12_ptrstate32_roundtrip.
+
+Theorem C12_ptrstate48_roundtrip :
+  forall m ptr s, 0 <= ptr < 2 ^ 48 -> Z.land ptr 3 = 0 -> 0 <= s <= 3 ->
+    exists m', Gen_Ptr48.SetPtr m ptr s = Ok (tt, m') /\ Gen_Ptr48.GetPointer m' = ptr /\ Gen_Ptr48.GetState m' = s.
+Proof. exact PtrState.ptr48_roundtrip. Qed.
+Print Assumptions C12_ptrstate48_roundtrip.
+
+Theorem C12_ptrstate64_roundtrip :
+  forall m ptr s, 0 <= ptr < 2 ^ 64 -> Z.land ptr 3 = 0 -> 0 <= s <= 3 ->
+    exists m', Gen_Ptr64.SetPtr m ptr s = Ok (tt, m') /\ Gen_Ptr64.GetPointer m' = ptr /\ Gen_Ptr64.GetState m' = s.
+Proof. exact PtrState.ptr64_roundtrip. Qed.
+Print Assumptions C12_ptrstate64_roundtrip.
